@@ -127,19 +127,23 @@ def ops_thin(n, c):
     return o
 
 
-def sequences(n, c, depth, alphabet):
+def sequences(n, c, depth, alphabet, first=None):
     """all non-empty sequences up to `depth`; a sequence ends after an
-    operation whose result exceeds the capacity"""
+    operation whose result exceeds the capacity.  `first`: only sequences that
+    start with the first-th operation of the alphabet (to split work units)"""
     out = []
 
-    def rec(n, d, prefix):
-        for op in alphabet(n, c):
+    def rec(n, d, prefix, only=None):
+        ops = alphabet(n, c)
+        if only is not None:
+            ops = ops[only:only + 1]
+        for op in ops:
             seq = prefix + [op]
             out.append(seq)
             m = new_len(n, op)
             if d > 1 and m <= c:
                 rec(m, d - 1, seq)
-    rec(n, depth, [])
+    rec(n, depth, [], first)
     return out
 
 
@@ -233,14 +237,16 @@ def task_lines(task):
     kind = task[0]
     lines = []
     if kind == 'exh':
-        _, combos, elem_rot, c, contents, depth, alpha, rotate = task
+        _, combos, elem_rot, c, contents, depth, alpha, rotate, first = task
         alphabet = ops_full if alpha == 'full' else ops_thin
-        seqs = sequences(len(contents), c, depth, alphabet)
-        k = 0
+        seqs = sequences(len(contents), c, depth, alphabet, first)
+        k = first or 0
         for seq in seqs:
             if rotate:
-                ln, bo = combos[k % len(combos)]
-                lines.append(req_line(ln, bo, ELEMS[(k // len(combos)) % 3], c, contents, seq))
+                # `rotate` of the 8 (length type, byte order) combinations per sequence
+                for j in range(rotate):
+                    ln, bo = combos[(k + (3 * j if rotate < len(combos) else j)) % len(combos)]
+                    lines.append(req_line(ln, bo, ELEMS[(k + j) % 3], c, contents, seq))
                 k += 1
             else:
                 for (ln, bo) in combos:
@@ -268,24 +274,25 @@ def make_tasks(tier, seed):
     for c in range(C + 1):
         for n in range(c + 1):
             for contents in all_contents(n):
-                tasks.append(('exh', COMBOS, ELEMS if thorough else ['char'], c, contents, 1, 'full', False))
+                tasks.append(('exh', COMBOS, ELEMS if thorough else ['char'], c, contents, 1, 'full', 0, None))
     # B: depth 2, canonical contents, full alphabet, all combos
     for c in range(C + 1):
         for n in range(c + 1):
             for k, (ln, bo) in enumerate(COMBOS):
-                tasks.append(('exh', [(ln, bo)], [ELEMS[(k + c + n) % 3]], c, canonical(n), 2, 'full', False))
-    # B': depth 2, every state, thin alphabet, combos rotated over the sequences
+                tasks.append(('exh', [(ln, bo)], [ELEMS[(k + c + n) % 3]], c, canonical(n), 2, 'full', 0, None))
+    # B': depth 2, every state, thin alphabet, 1 (quick) / 4 (thorough) of the combos per sequence, rotating
     for c in range(C + 1):
         for n in range(c + 1):
             for contents in all_contents(n):
-                tasks.append(('exh', COMBOS, None, c, contents, 2, 'thin', True))
-    # C: depth 3 (thorough), canonical contents, thin alphabet, combos rotated
-    if thorough:
-        for c in range(C + 1):
-            for n in range(c + 1):
-                tasks.append(('exh', COMBOS, None, c, canonical(n), 3, 'thin', True))
+                tasks.append(('exh', COMBOS, None, c, contents, 2, 'thin', 4 if thorough else 1, None))
+    # C: depth 3, canonical contents, thin alphabet, 1 (quick) / 8 = all (thorough) of the combos per
+    # sequence, rotating; one work unit per first operation
+    for c in range(C + 1):
+        for n in range(c + 1):
+            for first in range(len(ops_thin(n, c))):
+                tasks.append(('exh', COMBOS, None, c, canonical(n), 3, 'thin', 8 if thorough else 1, first))
     # D: long random sequences
-    per = 40 if not thorough else 400
+    per = 120 if not thorough else 1200
     k = 0
     for (ln, bo) in COMBOS:
         for e in ELEMS:
@@ -642,8 +649,9 @@ def correspond(chk, configs):
         'every state (all contents over a 3-letter alphabet, capacity <= C) x full operation alphabet (every kind, '
         'every valid position, all 3 values, ranges of length 0..2, counts 0..cap+1) x 4 length types x 2 byte orders; '
         '(B) depth 2 from canonical contents x full alphabet^2 x all 8 type combinations; (B\') depth 2 from every state '
-        'x thin alphabet^2 (every kind, every valid position, one value) with the 8 combinations rotated; (C, thorough) '
-        'depth 3 from canonical contents x thin alphabet^3, combinations rotated; (D) seeded random sequences of length '
+        'x thin alphabet^2 (every kind, every valid position, one value), each sequence under 1 (quick) / 4 (thorough) of '
+        'the 8 combinations, rotating; (C) depth 3 from canonical contents x thin alphabet^3, each sequence under 1 (quick) '
+        '/ all 8 (thorough) of the 8 combinations; (D) seeded random sequences of length '
         '20-60; (E) boundary grid next to the maximum of uint8/uint16 lengths. C = 3 quick / 4 thorough. Sequences '
         'end at the first operation that exceeds the capacity (the assertion is compared with the model).')
     chk.cov['exhaustive'] = True
